@@ -81,6 +81,21 @@ func main() {
 		}
 	}
 
+	// VERIF_MUTANT_OVERLAY: an extra {"Replace":{...}} overlay applied to every
+	// build (used to demonstrate that a check detects a deliberate change
+	// without touching /repo).
+	mutant := map[string]string{}
+	if mp := os.Getenv("VERIF_MUTANT_OVERLAY"); mp != "" {
+		b, err := os.ReadFile(mp)
+		var mo struct{ Replace map[string]string }
+		if err != nil || json.Unmarshal(b, &mo) != nil {
+			fmt.Fprintf(os.Stderr, "cannot read mutant overlay %s\n", mp)
+			os.Exit(2)
+		}
+		mutant = mo.Replace
+		fmt.Fprintf(os.Stderr, "vcheck: building with mutant overlay %s (%d files)\n", mp, len(mutant))
+	}
+
 	var wg sync.WaitGroup
 	var mu sync.Mutex
 	failed := false
@@ -102,13 +117,26 @@ func main() {
 		}
 	}
 	wg.Add(1)
-	go build("", "build", "-o", bin, pkg)
+	if len(mutant) > 0 {
+		odir := filepath.Join(root, "build", lid, "_plain")
+		os.RemoveAll(odir)
+		os.MkdirAll(odir, 0o755)
+		ovPath := filepath.Join(odir, "overlay.json")
+		b, _ := json.MarshalIndent(map[string]any{"Replace": mutant}, "", " ")
+		os.WriteFile(ovPath, b, 0o644)
+		go build("", "build", "-overlay", ovPath, "-o", bin, pkg)
+	} else {
+		go build("", "build", "-o", bin, pkg)
+	}
 	for name, vs := range sp.Variants {
 		out := bin + "." + name
 		os.Remove(out)
 		odir := filepath.Join(root, "build", lid, name)
 		os.RemoveAll(odir)
 		ov := instr.NewOverlay(odir)
+		for k, v := range mutant {
+			ov.Replace[k] = v
+		}
 		ok := true
 		for k, v := range vs.Consts {
 			p := strings.SplitN(k, ":", 2)
